@@ -1,6 +1,6 @@
 SPECIFICATION Spec
 CONSTANTS
-  Dialect = "code"
+  Dialect = "guarded"
   TokLeaves = {"a", ","}
   DocDepth = 2
   SubDepth = 2
